@@ -90,6 +90,11 @@ structure SwapPrePost (m : Mgr) (x : Nat) (ox oy : List Nat) (g xf : List Nat) (
   sched : m'.sched = m.sched
   /-- reference counts: exact before, exact after (same ledger of external references) -/
   refExact : ∀ ext, RefExact m ext → RefExact m' ext
+  /-- `garbage` contains the old children of every rebuilt node -/
+  garbageAll : ∀ u n, IsDep m.tbl x u → m.tbl.node? u = some n → n.lo.natAbs ∈ g ∧ n.hi.natAbs ∈ g
+  /-- every node created by the swap has a parent -/
+  freshParent : ∀ k nk, m'.tbl.node? k = some nk → m.tbl.node? k = none →
+    ∃ c nc, m'.tbl.node? c = some nc ∧ (nc.lo.natAbs = k ∨ nc.hi.natAbs = k)
 
 theorem Mid.toInv {m0 m : Mgr} {x : Nat} (hI : Inv m0) (hx : x + 1 < m0.nvars)
     (h : Mid m0 m x (fun _ => False)) (hc : ∀ k : List Int, m.cache[k]? = none) : Inv m := by
@@ -117,7 +122,7 @@ theorem swapPre_spec (m : Mgr) (hI : Inv m) (hV : OrderOK m.tbl)
       exchangeNames x (x + 1) m5 = (.ok (), m6) ∧ m6.ref = m5.ref ∧ m6.tbl.succ = m5.tbl.succ ∧
       Mid m m5 x (fun _ => False) ∧
       SwapPrePost m x ox oy g xf m6 := by
-  obtain ⟨g, xf, m5, hrun, hM, hxf, hg, hR⟩ := swapNodes_spec m hI hoff x hx ox oy hox hoy
+  obtain ⟨g, xf, m5, hrun, hM, hxf, hg, hR, hgall, hfp⟩ := swapNodes_spec m hI hoff x hx ox oy hox hoy
   obtain ⟨vx, hvx, _⟩ := hV.name_at (i := x) (by have : m.nvars = m.tbl.nvars := rfl; omega)
   obtain ⟨vy, hvy, _⟩ := hV.name_at (i := x + 1) hx
   have hl5 : m5.tbl.l2v = m.tbl.l2v := hM.frame.l2v
@@ -151,7 +156,7 @@ theorem swapPre_spec (m : Mgr) (hI : Inv m) (hV : OrderOK m.tbl)
   refine ⟨g, xf, m5, _, hrun, hex, rfl, rfl, hM, ?_⟩
   refine ⟨hI6, hV5.exchange x (x + 1) vx vy hxy hvx5 hvy5, ⟨?_, ?_, hM.frame.roots⟩, ?_, ?_, ?_, hxf, hg,
     hM.frame.lastLen, hM.frame.ctx, hM.frame.sched,
-    fun ext hr => (hR ext hr).congrSucc rfl rfl⟩
+    fun ext hr => (hR ext hr).congrSucc rfl rfl, hgall, hfp⟩
   · intro j
     show (exchangeVars m5.tbl x (x + 1) vx vy).l2v[j]? = _
     rw [exchangeVars_l2v m5.tbl x (x + 1) vx vy hxy hvx5 hvy5, hl5]
